@@ -407,7 +407,7 @@ func c02KeyAgreement(r *an.Run) {
 			good := ok && strings.HasSuffix(an.ShortType(mi.X.Type()), "metavarKey")
 			if good {
 				inner := an.Unwrap(mi.X)
-				good = an.Path(inner) == "m.Name"
+				good = len(f.Params) > 0 && an.Path(inner) == f.Params[0].Name()+".Name"
 			}
 			r.Check(good, short(f)+"|key|"+an.TrimModule(an.CalleeName(c)), c.Pos(), "the data key is metavarKey(m.Name) of the receiver")
 		}
